@@ -1,5 +1,6 @@
 import ApolloModel.Proofs.ParserLossless
 import ApolloModel.Proofs.Lexer2
+import ApolloModel.Proofs.ParserRecursion5
 /-
 C04 — Token and recursion limits are enforced exactly.
 
@@ -73,5 +74,71 @@ theorem withRec_on_limit {α : Type} (onLimit body : PI α) (s : PState) (h : s.
 
 -- Non-vacuity: a limit that stops in the middle of a node (kernel-evaluated)
 example : lex (some 2) ['{', 'a', '}'] = [.tok .lCurly ['{'], .tok .name ['a'], .limit] := by decide
+
+/-! ### The recursion limit across runs (growth): the `type` entry point
+
+`Parse.typeDepth src` is read off the lexer's token sequence alone (number of nested list types the text
+opens: its leading `[` tokens, ignored tokens allowed after each) — no parser run and no limit is involved
+in its definition.  The hypothesis `hterm` (the model did not abort) is exactly `C01.parse_type_terminates`;
+the two developments cannot be imported into one file because each declares a structure `Parse.TW`. -/
+
+/-- `Parser::parse_type`, recursion limit `r`, no token limit: a recursion-limit error is reported if and
+    only if the nesting depth of the input exceeds `r`. -/
+theorem rec_limit_iff_depth (r : Nat) (src : Parse.Str) (hterm : ∀ w, (parse .type none r src).outcome ≠ .abort w) :
+    (∃ e, e ∈ (parse .type none r src).errors ∧ e.kind = .limit) ↔ Parse.typeDepth src > r :=
+  (Parse.parseType_rec_limit r src hterm).1
+
+/-- …and the limit stops the descent at exactly level `r + 1`: the tracker's high-water mark is
+    `min depth (r + 1)` — the limit is enforced neither earlier nor later. -/
+theorem rec_high_exact (r : Nat) (src : Parse.Str) (hterm : ∀ w, (parse .type none r src).outcome ≠ .abort w) :
+    (parse .type none r src).recHigh = min (Parse.typeDepth src) (r + 1) :=
+  (Parse.parseType_rec_limit r src hterm).2
+
+/-- Cross-run form: the depth is what any run that does not hit its limit reaches, so a run with limit `r`
+    reports the limit error iff the unlimited run (any limit `R` that is not hit) went deeper than `r`. -/
+theorem rec_limit_iff_unlimited_high (r R : Nat) (src : Parse.Str)
+    (ht : ∀ w, (parse .type none r src).outcome ≠ .abort w) (hT : ∀ w, (parse .type none R src).outcome ≠ .abort w)
+    (hfree : ¬ ∃ e, e ∈ (parse .type none R src).errors ∧ e.kind = .limit) :
+    (parse .type none R src).recHigh = Parse.typeDepth src ∧
+    ((∃ e, e ∈ (parse .type none r src).errors ∧ e.kind = .limit) ↔ (parse .type none R src).recHigh > r) := by
+  have hR := Parse.parseType_rec_limit R src hT
+  have hle : Parse.typeDepth src ≤ R := by
+    by_cases h : Parse.typeDepth src > R
+    · exact absurd (hR.1.mpr h) hfree
+    · omega
+  have hhigh : (parse .type none R src).recHigh = Parse.typeDepth src := by rw [hR.2]; omega
+  exact ⟨hhigh, by rw [hhigh]; exact rec_limit_iff_depth r src ht⟩
+
+/-- The limit is monotone: what is accepted with limit `r` is accepted with every larger limit. -/
+theorem rec_limit_monotone (r r' : Nat) (hle : r ≤ r') (src : Parse.Str)
+    (ht : ∀ w, (parse .type none r src).outcome ≠ .abort w) (ht' : ∀ w, (parse .type none r' src).outcome ≠ .abort w)
+    (h : ∃ e, e ∈ (parse .type none r' src).errors ∧ e.kind = .limit) :
+    ∃ e, e ∈ (parse .type none r src).errors ∧ e.kind = .limit := by
+  have := (rec_limit_iff_depth r' src ht').mp h
+  exact (rec_limit_iff_depth r src ht).mpr (by omega)
+
+/-- The same statement for every entry point, with `depth` the maximal number of simultaneously open
+    guarded constructs (selection sets; list values; object-field values; list types) of the token
+    sequence.  NOT proved beyond the `type` entry point.  What is missing, in terms of the lemmas that exist
+    for `ty.rs` (Proofs/ParserRecursion1–4): (1) `QG` ("leaves high-water mark, limit errors and
+    `acceptErrors` alone") for the remaining primitives and loops of parser/mod.rs (`peek_while`,
+    `peek_while_kind`, `parse_separated_list`, `peekTokenN`, `err_and_pop`) and for every grammar function
+    without a guard; (2) a `depth` function on token sequences that follows value.rs / selection.rs
+    (sibling constructs: the maximum over the items of a list, the fields of an object, the selections of a
+    set, and over the definitions of a document), with the analogue of `lead_bracket` for each guarded
+    construct; (3) the analogue of `RecOut` for runs that visit several sibling constructs: after the first
+    limit hit `acceptErrors` is false and the later siblings still move the high-water mark only up to
+    `r + 1` (needs the invariant `recHigh ≤ recLimit + 1`, preserved by `withRec`). -/
+def rec_limit_iff_depth_statement (depth : Entry → Parse.Str → Nat) : Prop :=
+  ∀ (e : Entry) (r : Nat) (src : Parse.Str), (∀ w, (parse e none r src).outcome ≠ .abort w) →
+    ((∃ x, x ∈ (parse e none r src).errors ∧ x.kind = .limit) ↔ depth e src > r) ∧
+    (parse e none r src).recHigh = min (depth e src) (r + 1)
+
+-- Non-vacuity (kernel-evaluated): `[[Int]]` has depth 2; limit 1 stops at level 2, limit 2 does not stop
+example : Parse.typeDepth "[[Int]]".toList = 2 := by decide +kernel
+example : (parse .type none 1 "[[Int]]".toList).recHigh = 2 ∧
+    (parse .type none 1 "[[Int]]".toList).errors.map (·.kind) = [.limit] := by decide +kernel
+example : (parse .type none 2 "[[Int]]".toList).recHigh = 2 ∧ (parse .type none 2 "[[Int]]".toList).errors = [] := by
+  decide +kernel
 
 end Apollo.C04
